@@ -60,6 +60,12 @@ func Prop() *core.Prop {
 		"ibb_second_listener", "stanza_left_waiting_for_the_application", "ibb_unaccepting_listener_closed",
 		// error payloads with several <text/> children (empty first, filled later), shuffled children, 0 or several conditions
 		"reply_err-texts", "reply_err-first-text-empty", "reply_err-shuffled", "reply_err-conditions-not-one",
+		// the context of a request cancelled from inside the library's yield points
+		"hook_cancel_armed:serve.handoff", "hook_cancel_armed:serve.lookup", "hook_cancel_armed:req.wait", "hook_cancel_armed:req.done",
+		// handlers with their optional callbacks unset, fed the payloads they route
+		"w1_nil_callback_cases", "w1_nil_callback_cases:muc-invite", "w1_nil_callback_cases:muc-direct-invite", "w1_nil_callback_cases:muc-room",
+		"w1_nil_callback_cases:receipts-received", "w1_nil_callback_cases:mam-untracked", "w1_nil_callback_cases:block", "w1_nil_callback_cases:unblock",
+		"w1_nil_callback_cases:block-list", "w1_nil_callback_cases:time", "w1_nil_callback_cases:bob",
 		"history_iter_closed_early", "history_iter_closed_early_with_result_in_flight", "history_iter_early_close_returned", "iter_closed_early"}
 	for _, h := range helpers {
 		req = append(req, "helper_value:"+h.name)
